@@ -61,11 +61,16 @@ pub mod md5 {
         pub fn finalize(self) -> (r: DigestOut) ensures r.bytes@ == md5_spec(self.absorbed@) { unimplemented!() }
     }
 }
-/// R11: content comparison of byte strings / text (std PartialEq between &[u8], Vec<u8>, &str, String)
+/// R11: `a != b` / `a == b` between &[u8], Vec<u8>, &str, String is content (in)equality (std
+/// PartialEq).  One generic helper, dispatched on the operand types, so the rewrite does not
+/// depend on the names of the operands.
+pub trait VSeq { type E; spec fn vs(&self) -> Seq<Self::E>; }
+impl VSeq for &[u8] { type E = u8; open spec fn vs(&self) -> Seq<u8> { self@ } }
+impl VSeq for Vec<u8> { type E = u8; open spec fn vs(&self) -> Seq<u8> { self@ } }
+impl VSeq for &str { type E = char; open spec fn vs(&self) -> Seq<char> { self@ } }
+impl VSeq for String { type E = char; open spec fn vs(&self) -> Seq<char> { self@ } }
 #[verifier::external_body]
-pub fn bytes_eq(a: &[u8], b: &[u8]) -> (r: bool) ensures r == (a@ == b@) { a == b }
-#[verifier::external_body]
-pub fn str_eq(a: &str, b: &str) -> (r: bool) ensures r == (a@ == b@) { a == b }
+pub fn veq<A: VSeq, B: VSeq<E = A::E>>(a: &A, b: &B) -> (r: bool) ensures r == (a.vs() == b.vs()) { unimplemented!() }
 /// `DigestAlgorithm::from_u32` (num_traits::FromPrimitive derive): the numeric map of
 /// src/constants.rs; K:k_digest_algo checks it against the real enum for every u32.
 impl DigestAlgorithm {
